@@ -1735,6 +1735,12 @@ impl DnsOutgoing {
         self.id = id;
     }
 
+    /// Marks the message as sent by unicast: its header then carries the ID
+    /// given to `set_id`, instead of the 0 of a multicast message.
+    pub fn set_unicast(&mut self) {
+        self.multicast = false;
+    }
+
     pub const fn is_query(&self) -> bool {
         (self.flags & FLAGS_QR_MASK) == FLAGS_QR_QUERY
     }
